@@ -136,3 +136,27 @@ Theorem C01_nnchain_Q_wf : forall (p : profile) (rt : Q -> Q) (meth : method) s 
   \/ nnchain_with (kops_of (QFr rt) meth) p meth s d m n = Panic PNaN.
 Proof. exact nnchain_Q_total_wf. Qed.
 Print Assumptions C01_nnchain_Q_wf.
+
+(* ---- on the float carriers of the correspondence check: linkage, mst and
+   nnchain with single or complete linkage on any NaN-free well-formed matrix
+   return a well-formed dendrogram (the NaN panic cannot be excluded here
+   only because the statement does not need it) ---- *)
+Require Import KV.Model.Linkage KV.Run.F64 KV.Run.F32 KV.Proofs.FloatInstances.
+From Flocq Require Import IEEE754.BinarySingleNaN.
+Theorem C01_selection_wf_f64 : forall (p : profile) (a : algo) (meth : method) s d (m : list PrimFloat.float) (n : N),
+  a = ALinkage \/ a = AMst \/ a = ANnchain -> meth = Single \/ meth = Complete ->
+  (n < two32)%N -> wf_shape n (N.of_nat (length m)) ->
+  Forall (fun v => PrimFloat.is_nan v = false) m ->
+  (exists s' d' m', run_with F64 p a meth s d m n = Ok (s', d', m') /\ wf_dend (d_obs d') (d_steps d'))
+  \/ run_with F64 p a meth s d m n = Panic PNaN.
+Proof. exact selection_total_wf_f64. Qed.
+Print Assumptions C01_selection_wf_f64.
+
+Theorem C01_selection_wf_f32 : forall (p : profile) (a : algo) (meth : method) s d (m : list f32) (n : N),
+  a = ALinkage \/ a = AMst \/ a = ANnchain -> meth = Single \/ meth = Complete ->
+  (n < two32)%N -> wf_shape n (N.of_nat (length m)) ->
+  Forall (fun v => BinarySingleNaN.is_nan v = false) m ->
+  (exists s' d' m', run_with F32 p a meth s d m n = Ok (s', d', m') /\ wf_dend (d_obs d') (d_steps d'))
+  \/ run_with F32 p a meth s d m n = Panic PNaN.
+Proof. exact selection_total_wf_f32. Qed.
+Print Assumptions C01_selection_wf_f32.
